@@ -92,6 +92,11 @@ fixed(
     "exceeded the rank of the modified Gram matrix: mixing=0, 20x8 X, 2 targets, n_components=6 gave training loss 255.3 vs least-squares 230.9",
 )
 
+# ------------------------------------------------------------------ C05
+fixed("C05", "072d35c", "KernelPCovR(regressor='precomputed') with a 1-D Yhat raised in _fit (W @ Yhat.T) or silently used a scalar for Yhat Yhat^T")
+fixed("C05", "d4a47d6", "KernelPCovR.score on a held-out set with V != N samples raised a matmul error, and gave a wrong value for V == N (K_VV where the documented loss has K_NN)")
+fixed("C05", "6f2bae2", "KernelPCovR(center=True).score centred K_VV as if it were a test-train kernel (-5.11 vs -5.67 by explicit feature-space centring; shape error for V != N)")
+
 if __name__ == "__main__":
     out = {
         "comment": "Genuine defects of scikit-matter found by the monitors. status=known: recorded, not repaired, keyed by "
